@@ -10,7 +10,10 @@ Ties (all against a scratch copy of /repo's working tree):
                notify, store}, addresses colliding in the hash buckets) and seeded / DFS-enumerated schedules
                incl. spurious wake-ups and timeouts; the executed schedule string is replayed by `futexdriver`
                in Model.Futex; verdict (ok / deadlock), per-thread return values, blocked threads, map
-               emptiness and the sanitizer verdict must agree.
+               emptiness and the sanitizer verdict must agree.  In ALLOC mode (harness `shared` = 3; the DIRECTED scenarios
+               by DFS and a share of the seeded runs) the calloc/malloc calls of futex.c/map.c/list.c are scheduling points
+               too: on a fresh memory the first waiter is suspended between its comparison and the creation of the map / its
+               enqueue while a store + notify run (a notify that looks at the map before it owns the mutex loses that wake-up).
   emit-tokens  the wait/notify statements the REAL w2c2 writes (random static offsets, stack depths) vs the text of
                `Futex.Emit` (whose address expression `wait_effective_address` is about).
   e2e-offset   wait32/wait64/notify with static offsets through real w2c2 + gcc + real futex.c: which cell is
@@ -32,8 +35,9 @@ from common import prove, leanchecker
 from vlib import log
 
 PROP = "C17"
-MODULES = ["W2c2Verif.Props.C17", "W2c2Verif.Props.C17Timeout"]
-GENS = [("CondWait", "gen_condwait")]      # the timeout -> timespec computation of wasmCondRelativeWait (Props/C17Timeout)
+MODULES = ["W2c2Verif.Props.C17", "W2c2Verif.Props.C17Timeout", "W2c2Verif.Props.C17Lock"]
+GENS = [("CondWait", "gen_condwait"),      # the timeout -> timespec computation of wasmCondRelativeWait (Props/C17Timeout)
+        ("FutexLock", "gen_futex_lock")]   # notify's events (flag / lock / unlock / futex-state access / return) with "mutex held" (Props/C17Lock)
 FUTEXDRIVER = os.path.join(vlib.LEAN, ".lake", "build", "bin", "futexdriver")
 
 class SpecMismatch(Exception):
@@ -188,6 +192,8 @@ def run(tier):
         "Futex.Emit.addrText <-> Futex.Emit.addrExpr: gcc parses `si<k>+<off>U` as that expression",
         "tools/extract/gen_condwait.py (body of wasmCondRelativeWait -> CStmt); time_t and long are 64-bit signed (LP64); the deadline "
         "harness interposes clock_gettime/pthread_cond_timedwait by ld --wrap",
+        "tools/extract/gen_futex_lock.py (structural walk of wasmMemoryAtomicNotify: lock state per event; futex state = mem->futex and "
+        "locals derived from it); allocation scheduling points: futex.c/map.c/list.c compiled with -Dcalloc=fxh_calloc -Dmalloc=fxh_malloc",
     ]
     chk.assumptions = [
         "timedwait's relation to wall-clock time is abstracted to a nondeterministic timeout event (a spurious wake-up restarting the "
@@ -203,6 +209,7 @@ def run(tier):
     quick = tier == "quick"
     n_scen = 300 if quick else 1500
     n_seeds = 20 if quick else 30
+    n_alloc = 4 if quick else 8
     n_dfs = 8 if quick else 40
     dfs_runs = 300 if quick else 3000
     hist = {"verdict": {}, "ops": {}, "steps": {}, "spurious": 0, "timeouts": 0, "collide": 0, "threads": {}}
@@ -234,11 +241,24 @@ def run(tier):
                 tw = chk.rng.choice([5, 30, 100])
                 lines.append(f"seed 1 {init} {ths} {chk.rng.randrange(1 << 30)} {sw} {tw}")
                 meta.append((init, ths))
+            for _ in range(n_alloc):
+                # shared=3: the allocations inside wait's critical section are scheduling points too (ALLOC mode, below)
+                lines.append(f"seed 3 {init} {ths} {chk.rng.randrange(1 << 30)} {chk.rng.choice([0, 10, 40])} {chk.rng.choice([5, 30, 100])}")
+                meta.append((init, ths))
         for (init, ths) in small:
             lines.append(f"dfs 1 {init} {ths} 40 1 {dfs_runs} 1")
             meta.append((init, ths))
         for (init, ths) in DIRECTED:
             lines.append(f"dfs 1 {init} {ths} 40 1 {600 if quick else 6000} 1")
+            meta.append((init, ths))
+        # ALLOC mode (shared=3): every execution starts on a FRESH memory (futex map not yet created); the first waiter is
+        # suspended at the calloc of its Wait / of the map / of the buckets / of the map node — inside the critical section,
+        # between its comparison and its enqueue — while the other threads run whatever does not wait for the mutex
+        # (a store; any part of notify that runs before `lock`).  Model.Futex has no such points: the model replays the
+        # schedule without the tokens that resume a thread from an allocation point (fs.strip_alloc), which is the same
+        # execution as long as everything between `lock` and the next mutex/condvar operation only matters to mutex holders.
+        for (init, ths) in DIRECTED:
+            lines.append(f"dfs 3 {init} {ths} 40 1 {600 if quick else 6000} 1")
             meta.append((init, ths))
         # notify on a non-shared memory returns 0 without touching the map
         for (init, ths) in scen[:10]:
@@ -261,7 +281,7 @@ def run(tier):
                     runs.append((shared, init, ths, fs.parse_reply(g)))
         model = None
         if driver_ok and runs:
-            dl = [f"run {B} {sh} {init} {ths} " + r["sched"].replace(",", " ").replace("-", "") for sh, init, ths, r in runs]
+            dl = [f"run {B} {int(sh) & 1} {init} {ths} " + fs.strip_alloc(r).replace(",", " ").replace("-", "") for sh, init, ths, r in runs]
             model = [fs.parse_reply(x) for x in vlib.DriverProc(FUTEXDRIVER).batch(dl, timeout=1800)]
         chk.coverage["rule"] = (
             "sched-trace: a case is (scenario = initial cells + per-thread op lists over bucket-colliding addresses, executed "
@@ -281,7 +301,8 @@ def run(tier):
             hist["steps"][len(toks) // 10 * 10] = hist["steps"].get(len(toks) // 10 * 10, 0) + 1
             hist["spurious"] += sum(1 for t in toks if t.endswith("s"))
             hist["timeouts"] += sum(1 for t in toks if t.endswith("t"))
-            for (k2, w) in real_oracles(ths, r, init) if sh == "1" else []:
+            hist["alloc_points"] = hist.get("alloc_points", 0) + (0 if r.get("al", "-") in ("-", "") else len(r["al"].split(".")))
+            for (k2, w) in real_oracles(ths, r, init) if sh in ("1", "3") else []:
                 chk.violation(k2, w, {"kind": "sched", "B": B, "shared": sh, "init": init, "threads": ths,
                                       "schedule": r.get("sched"), "real": r,
                                       "replay_cmd": "python3 tools/check.py C17 --replay <this file>"}, True)
@@ -456,16 +477,17 @@ def search_on_break(chk, exe, B, mismatches, driver_ok):
     """Schedule exploration on the REAL code (oracles), plus model DFS candidates replayed on the real code."""
     scen = [(m["init"], m["threads"]) for m in mismatches[:3]] + CANONICAL
     lines = [f"dfs 1 {init} {ths} 40 1 {2500 if chk.tier == 'quick' else 20000} 1" for init, ths in scen]
+    lines += [f"dfs 3 {init} {ths} 40 1 {2500 if chk.tier == 'quick' else 20000} 1" for init, ths in scen]     # + allocation points
     groups = fs.run_lines(exe, lines, timeout=3000)
     explored = 0
-    for (init, ths), grp in zip(scen, groups):
+    for sh3, ((init, ths), grp) in enumerate(zip(scen + scen, groups)):
         for g in grp:
             if g.startswith("done ") or g.startswith("err"):
                 continue
             explored += 1
             r = fs.parse_reply(g)
             for (k2, w) in real_oracles(ths, r, init):
-                chk.violation(k2, w, {"kind": "sched", "B": B, "shared": "1", "init": init, "threads": ths,
+                chk.violation(k2, w, {"kind": "sched", "B": B, "shared": "3" if sh3 >= len(scen) else "1", "init": init, "threads": ths,
                                       "schedule": r.get("sched"), "real": r,
                                       "replay_cmd": "python3 tools/check.py C17 --replay <this file>"}, True)
     chk.coverage["search_on_break"] = {"real_executions_explored": explored}
